@@ -65,7 +65,10 @@ func (ms *metaStore) metaPath(bucket string, object string) metaPath {
 	return metaPath{bucket, object + "-" + hex.EncodeToString(h.Sum(nil))}
 }
 
-func (ms *metaStore) loadMeta(bucket string, object string, size int64, mtime time.Time) (*Metadata, error) {
+// loadMeta returns the stored metadata of an object. objFs and objPath locate the
+// object's own file: when the stored metadata is missing, unreadable or stale, the
+// hash is recomputed from that file.
+func (ms *metaStore) loadMeta(bucket string, object string, size int64, mtime time.Time, objFs afero.Fs, objPath string) (*Metadata, error) {
 	metaPath := ms.metaPath(bucket, object)
 	fullPath := metaPath.FilePath()
 
@@ -77,7 +80,9 @@ func (ms *metaStore) loadMeta(bucket string, object string, size int64, mtime ti
 	var meta Metadata
 	if len(bts) > 0 {
 		if err := json.Unmarshal(bts, &meta); err != nil {
-			return nil, err
+			// A partially written metadata file is treated like a missing one and
+			// regenerated from the object below:
+			meta = Metadata{}
 		}
 	}
 
@@ -90,7 +95,7 @@ func (ms *metaStore) loadMeta(bucket string, object string, size int64, mtime ti
 	if len(meta.Hash) == 0 || meta.Size != size || modDiff < -modRes || modDiff > modRes {
 		meta.Size = size
 		meta.ModTime = mtime
-		meta.Hash, err = hashFile(ms.fs, fullPath)
+		meta.Hash, err = hashFile(objFs, objPath)
 		if err != nil {
 			return nil, err
 		}
